@@ -1,6 +1,7 @@
 (* C15 — Weekdays follow the seven-day cycle anchored to known days (names and numbers are in C15_names.v). *)
 From JV Require Import Sem Gen Spec SpecX.
 From JV.Proofs Require Import SpecFacts Cal Core Inner Boundary AtJdn.
+Require JV.Proofs.Enums.
 Open Scope Z_scope.
 
 Theorem C15_cycle : forall j, in_i32 j ->
@@ -37,3 +38,42 @@ Proof.
   rewrite !weekday_ok by exact H. rewrite for_jdn_ok by exact H. split; reflexivity.
 Qed.
 Print Assumptions C15_calendar_independent.
+
+(* numbers, successors and predecessors of the two enums: Monday = 1 ... Sunday = 7, January = 1 ... December = 12;
+   number0 is one less; succ / pred move by one and are absent exactly at the ends; the number determines the value *)
+Theorem C15_enum_numbers :
+  (forall w, List.In w JV.Proofs.Enums.all_weekdays) /\ (forall m, List.In m JV.Proofs.Enums.all_months_list) /\
+  JV.Proofs.Enums.mapM_numbers Weekday_number JV.Proofs.Enums.all_weekdays = Ret (1 :: 2 :: 3 :: 4 :: 5 :: 6 :: 7 :: nil) /\
+  JV.Proofs.Enums.mapM_numbers Month_number JV.Proofs.Enums.all_months_list = Ret (1 :: 2 :: 3 :: 4 :: 5 :: 6 :: 7 :: 8 :: 9 :: 10 :: 11 :: 12 :: nil).
+Proof. exact JV.Proofs.Enums.enum_numbers. Qed.
+Print Assumptions C15_enum_numbers.
+Theorem C15_weekday_steps : forall w,
+  Weekday_number w = Ret (Weekday_discr w) /\ 1 <= Weekday_discr w <= 7 /\
+  Weekday_number0 w = Ret (Weekday_discr w - 1) /\
+  Weekday_succ w = Ret (if Weekday_discr w =? 7 then None else Some (weekday_of_number (Weekday_discr w + 1))) /\
+  Weekday_pred w = Ret (if Weekday_discr w =? 1 then None else Some (weekday_of_number (Weekday_discr w - 1))) /\
+  weekday_of_number (Weekday_discr w) = w.
+Proof. exact JV.Proofs.Enums.weekday_steps. Qed.
+Print Assumptions C15_weekday_steps.
+Theorem C15_month_steps : forall m,
+  Month_number m = Ret (Month_discr m) /\ 1 <= Month_discr m <= 12 /\
+  Month_number0 m = Ret (Month_discr m - 1) /\
+  Month_succ m = Ret (if Month_discr m =? 12 then None else Some (month_of_Z (Month_discr m + 1))) /\
+  Month_pred m = Ret (if Month_discr m =? 1 then None else Some (month_of_Z (Month_discr m - 1))) /\
+  month_of_Z (Month_discr m) = m.
+Proof. exact JV.Proofs.Enums.month_steps. Qed.
+Print Assumptions C15_month_steps.
+(* every observer of a month / weekday value against the specification's tables (names, abbreviations, numbers,
+   neighbours): SpecX.month_names_spec, weekday_names_spec, enum_q_spec *)
+Theorem C15_month_table : forall m,
+  (a <- Month_name m;; b <- Month_short_name m;; n <- Month_number m;; n0 <- Month_number0 m;;
+   p <- Month_pred m;; p' <- JV.Proofs.Enums.omapM Month_number p;; s <- Month_succ m;; s' <- JV.Proofs.Enums.omapM Month_number s;; Ret (Some (a, b, n, n0, p', s')))
+  = Ret (enum_q_spec month_names_spec (Month_discr m)).
+Proof. exact JV.Proofs.Enums.month_q_ok. Qed.
+Print Assumptions C15_month_table.
+Theorem C15_weekday_table : forall w,
+  (a <- Weekday_name w;; b <- Weekday_short_name w;; n <- Weekday_number w;; n0 <- Weekday_number0 w;;
+   p <- Weekday_pred w;; p' <- JV.Proofs.Enums.omapM Weekday_number p;; s <- Weekday_succ w;; s' <- JV.Proofs.Enums.omapM Weekday_number s;; Ret (Some (a, b, n, n0, p', s')))
+  = Ret (enum_q_spec weekday_names_spec (Weekday_discr w)).
+Proof. exact JV.Proofs.Enums.weekday_q_ok. Qed.
+Print Assumptions C15_weekday_table.
